@@ -210,6 +210,7 @@ def faults():
         x = ocp.state(); z = ocp.algebraic(); u = ocp.control()
         ocp.set_der(x, z + u)
         ocp.add_alg(z - x)
+        ocp.subject_to(-1 <= (u <= 1)); ocp.subject_to(ocp.at_t0(x) == 1)
         ocp.add_objective(ocp.at_tf(x)); ocp.solver("ipopt"); ocp.method(_method(m, intg="rk"))
         return ocp
     F["algebraic-equation-with-explicit-scheme"] = alg_with_explicit
@@ -222,6 +223,7 @@ def faults():
         x = ocp.state(); z = ocp.algebraic(); u = ocp.control()
         ocp.set_der(x, z + u)
         ocp.add_alg(z - x)
+        ocp.subject_to(-1 <= (u <= 1)); ocp.subject_to(ocp.at_t0(x) == 1)
         ocp.add_objective(ocp.at_tf(x)); ocp.solver("ipopt"); ocp.method(_method(m, intg="expl_euler"))
         return ocp
     F["algebraic-equation-with-expl_euler"] = alg_with_euler
